@@ -72,6 +72,9 @@ def runners():
     add('chef', lambda m: chef(m, False), ['out'], serial=lambda m: chef(m, True))
     add('mandoline-3d', lambda m: mand(m, 'plt', False).slice(normal=0, pos=0.6, fformat='return'),
         serial=lambda m: mand(m, 'plt', True).slice(normal=0, pos=0.6, fformat='return'))
+    # planes that miss the fine level altogether: that level's task list is empty
+    add('mandoline-3d-off-fine', lambda m: [mand(m, 'plt', False).slice(normal=n, pos=x, fformat='return') for n, x in ((0, -0.3), (2, 2.2))],
+        serial=lambda m: [mand(m, 'plt', True).slice(normal=n, pos=x, fformat='return') for n, x in ((0, -0.3), (2, 2.2))])
     add('mandoline-2d', lambda m: mand(m, 'plt2d', False).slice(fformat='return'), serial=lambda m: mand(m, 'plt2d', True).slice(fformat='return'))
     add('mandoline-plotfile', lambda m: mand(m, 'plt', False).slice(normal=1, pos=1.5, outfile='out', fformat='plotfile'), ['out'],
         serial=lambda m: mand(m, 'plt', True).slice(normal=1, pos=1.5, outfile='out', fformat='plotfile'))
@@ -443,7 +446,7 @@ def replay_workers(d, case, runner, mods):
         os.chdir(wd)
         mp = MP(w)
         saved = []
-        for m in mods.values():
+        for m in (mods.values() if w is not None else ()):      # w None: the code's own pools, untouched
             for k, val in list(m.__dict__.items()):
                 if isinstance(val, types.ModuleType) and val.__name__ == 'multiprocessing':
                     saved.append((m, k, val))
@@ -473,8 +476,8 @@ def replay_workers(d, case, runner, mods):
         return outcome, h.hexdigest()
     if case['schedule'].get('real_vs_serial'):
         # real process pools against the serial mode of the same request
-        base = one('serial', 16, 'serial')
-        other = one('pooled', 16, 'run')
+        base = one('serial', None, 'serial')
+        other = one('pooled', None, 'run')
         if other[0][0] == 'raised' and base[0][0] != 'raised':
             return True, 'raises %s in pooled mode, the serial mode returns' % other[0][1]
         if repr(other[0]) != repr(base[0]) or other[1] != base[1]:
